@@ -13,9 +13,9 @@ KW = {"struct": "Kstruct", "trait": "Ktrait", "impl": "Kimpl", "for": "Kfor", "w
       "mut": "Kmut", "'static": "Kstatic", "'erased": "Kerased", "upstream": "Kupstream", "fundamental": "Kfundamental",
       "phantom_data": "Kphantom_data", "auto": "Kauto", "marker": "Kmarker", "non_enumerable": "Knon_enumerable",
       "coinductive": "Kcoinductive", "object_safe": "Kobject_safe", "enum": "Kenum", "one_zst": "Kone_zst", "str": "Kstr",
-      "const": "Kconst", "int": "Kint", "float": "Kfloat"}
+      "const": "Kconst", "int": "Kint", "float": "Kfloat", "fn": "Kfn", "unsafe": "Kunsafe", "dyn": "Kdyn", "repr": "Krepr", "C": "KC", "packed": "Kpacked"}
 PUNCT = {"<": "PLt", ">": "PGt", "(": "PLParen", ")": "PRParen", "{": "PLBrace", "}": "PRBrace", "[": "PLBracket",
-         "]": "PRBracket", ",": "PComma", ":": "PColon", "&": "PAmp", "!": "PBang", "#": "PHash", "*": "PStar", ";": "PSemi"}
+         "]": "PRBracket", ",": "PComma", ":": "PColon", "&": "PAmp", "!": "PBang", "#": "PHash", "*": "PStar", ";": "PSemi", "->": "PArrow", "...": "PDots", "+": "PPlus"}
 
 
 def item_name(n):
@@ -73,16 +73,31 @@ class Gen:
             return ("CVar", Pair(Nat(d), Nat(i)))
         return ("CVal", self.r.choice([0, 1, 3, 42, 4294967295]))
 
-    def garg(self, kind, scopes, depth):
+    def garg(self, kind, scopes, depth, nodyn=False):
         if kind == "KLt":
             return ("GLt", self.lt(scopes))
         if kind == "KConst":
             c = self.konst(scopes)
             return ("GCVar", c[1]) if c[0] == "CVar" else ("GCVal", c[1])
-        return ("GTy", self.ty(scopes, depth))
+        return ("GTy", self.ty(scopes, depth, nodyn))
 
-    def ty(self, scopes, depth=2):
+    def ty(self, scopes, depth=2, nodyn=False):
         r = self.r
+        c = r.random()
+        if depth > 0 and c < 0.07:
+            nb = r.choice([0, 0, 1, 2])
+            sc = [["KLt"] * nb] + scopes
+            return ("TFn", Nat(nb), r.random() < 0.3, r.random() < 0.2, [self.ty(sc, depth - 1, nodyn) for _ in range(r.choice([0, 1, 2]))],
+                    self.ty(sc, depth - 1, nodyn))
+        nonauto = [t for t in sorted(self.traits) if not self.trait_auto.get(t)]
+        if depth > 0 and c < 0.13 and nonauto and not nodyn:
+            bs = []
+            for _ in range(r.choice([1, 1, 2])):
+                ks = [r.choice(["KLt", "KLt", "KTy"]) for _ in range(r.choice([0, 0, 1, 2]))]
+                t = r.choice(nonauto)
+                sc = [ks, []] + scopes
+                bs.append(("DB", ks, Nat(t), [self.garg(k, sc, depth - 1, True) for k in self.traits[t]]))
+            return ("TDyn", bs, self.lt(scopes))
         c = r.random()
         tv = [(d, i) for d, sc in enumerate(scopes) for i, k in enumerate(sc) if k in ("KTy", "KInt", "KFloat")]
         if depth <= 0 or c < 0.3:
@@ -100,16 +115,16 @@ class Gen:
             return ("TScalar", "S" + r.choice(SCALARS))
         if c < 0.55 and self.structs:
             i = r.choice(sorted(self.structs))
-            return ("TAdt", Nat(i), [self.garg(k, scopes, depth - 1) for k in self.structs[i]])
+            return ("TAdt", Nat(i), [self.garg(k, scopes, depth - 1, nodyn) for k in self.structs[i]])
         if c < 0.72:
-            return ("TTuple", [self.ty(scopes, depth - 1) for _ in range(r.choice([0, 1, 2, 3]))])
+            return ("TTuple", [self.ty(scopes, depth - 1, nodyn) for _ in range(r.choice([0, 1, 2, 3]))])
         if c < 0.80:
-            return ("TRaw", r.random() < 0.5, self.ty(scopes, depth - 1))
+            return ("TRaw", r.random() < 0.5, self.ty(scopes, depth - 1, nodyn))
         if c < 0.84:
-            return ("TSlice", self.ty(scopes, depth - 1))
+            return ("TSlice", self.ty(scopes, depth - 1, nodyn))
         if c < 0.90:
-            return ("TArray", self.ty(scopes, depth - 1), self.konst(scopes))
-        return ("TRef", r.random() < 0.4, self.lt(scopes), self.ty(scopes, depth - 1))
+            return ("TArray", self.ty(scopes, depth - 1, nodyn), self.konst(scopes))
+        return ("TRef", r.random() < 0.4, self.lt(scopes), self.ty(scopes, depth - 1, nodyn))
 
     def wc(self, scopes):
         r = self.r
@@ -135,7 +150,7 @@ class Gen:
         if "t" not in kinds:
             kinds.append("t")
         r.shuffle(kinds)
-        self.structs, self.traits = {}, {}
+        self.structs, self.traits, self.trait_auto = {}, {}, {}
         hdr = []
         for i, k in enumerate(kinds):
             ps = self.kinds(3)
@@ -144,20 +159,21 @@ class Gen:
                 self.structs[i] = ps
             elif k == "t":
                 self.traits[i] = ps
+                self.trait_auto[i] = (not ps) and r.random() < 0.2
         items = []
         for i, k in enumerate(kinds):
             ps = hdr[i]
             if k == "s":
                 fund = bool(ps) and r.random() < 0.15
-                fl = ("Build_sflags", r.random() < 0.15, fund, r.random() < 0.1, r.random() < 0.1)
+                fl = ("Build_sflags", r.random() < 0.15, fund, r.random() < 0.1, r.random() < 0.1, r.random() < 0.15, r.random() < 0.1)
                 items.append(("IStruct", i + 100, ps, fl, [self.ty([ps]) for _ in range(r.choice([0, 1, 2, 3]))], self.qwcs([ps])))
             elif k == "e":
                 fund = bool(ps) and r.random() < 0.15
-                fl = ("Build_sflags", r.random() < 0.15, fund, r.random() < 0.1, r.random() < 0.1)
+                fl = ("Build_sflags", r.random() < 0.15, fund, r.random() < 0.1, r.random() < 0.1, r.random() < 0.15, r.random() < 0.1)
                 vs = [[self.ty([ps]) for _ in range(r.choice([0, 1, 2]))] for _ in range(r.choice([0, 1, 2, 3]))]
                 items.append(("IEnum", i + 100, ps, fl, vs, self.qwcs([ps])))
             elif k == "t":
-                auto = (not ps) and r.random() < 0.2
+                auto = self.trait_auto[i]
                 fl = ("Build_tflags", auto, *[r.random() < 0.12 for _ in range(6)])
                 sc = [["KTy"] + ps]
                 items.append(("ITrait", i + 100, ps, fl, [] if auto else self.qwcs(sc)))
@@ -212,6 +228,19 @@ class Src:
             return "[" + self.ty(t[1], sc) + "]"
         if h == "TArray":
             return "[" + self.ty(t[1], sc) + "; " + self.konst(t[2], sc) + "]"
+        if h == "TFn":
+            _, nb, unsafe, variadic, args, ret = t
+            s2 = [(len(sc), ["KLt"] * int(nb), False)] + sc
+            pre = ("for" + self.params(len(sc), ["KLt"] * int(nb)) + " ") if int(nb) else ""
+            ins = [self.ty(a, s2) for a in args] + (["..."] if variadic else [])
+            return pre + ("unsafe " if unsafe else "") + "fn(" + ", ".join(ins) + ") -> " + self.ty(ret, s2)
+        if h == "TDyn":
+            bs = []
+            for _, ks, tr, args in t[1]:
+                s2 = [(len(sc) + 1, ks, False), (len(sc), [], False)] + sc
+                a = [self.garg(x, s2) for x in args]
+                bs.append((("forall" + self.params(len(sc) + 1, ks) + " ") if ks else "") + self.names[int(tr)] + (("<" + ", ".join(a) + ">") if a else ""))
+            return "dyn " + " + ".join(bs) + " + " + self.lt(t[2], sc)
         if h == "TVar":
             return self.var(sc, int(t[1][0]), int(t[1][1]))
         if h == "TAdt":
@@ -261,13 +290,13 @@ class Src:
             if it[0] == "IStruct":
                 _, nm, ps, fl, fields, wcs = it
                 sc = [(0, ps, False)]
-                at = "".join("#[%s] " % n for n, b in zip(["upstream", "fundamental", "phantom_data", "one_zst"], fl[1:]) if b)
+                at = "".join("#[%s] " % n for n, b in zip(["upstream", "fundamental", "phantom_data", "one_zst", "repr(C)", "repr(packed)"], fl[1:]) if b)
                 out.append(at + "struct " + item_name(nm) + self.params(0, ps) + self.where(wcs, sc) + " { "
                            + ", ".join("x%d: %s" % (i, self.ty(t, sc)) for i, t in enumerate(fields)) + " }")
             elif it[0] == "IEnum":
                 _, nm, ps, fl, vs, wcs = it
                 sc = [(0, ps, False)]
-                at = "".join("#[%s] " % n for n, b in zip(["upstream", "fundamental", "phantom_data", "one_zst"], fl[1:]) if b)
+                at = "".join("#[%s] " % n for n, b in zip(["upstream", "fundamental", "phantom_data", "one_zst", "repr(C)", "repr(packed)"], fl[1:]) if b)
                 body = ", ".join("V%d { %s }" % (k, ", ".join("x%d: %s" % (i, self.ty(t, sc)) for i, t in enumerate(v))) for k, v in enumerate(vs))
                 out.append(at + "enum " + item_name(nm) + self.params(0, ps) + self.where(wcs, sc) + " { " + body + " }")
             elif it[0] == "ITrait":
@@ -310,6 +339,16 @@ def d_ty(t):
         return ("Slice", d_ty(t[1]))
     if h == "TArray":
         return ("Array", d_ty(t[1]), d_konst(t[2]))
+    if h == "TFn":
+        _, nb, unsafe, variadic, args, ret = t
+        return ("FnPtr", int(nb), ("Sig", "Unsafe" if unsafe else "Safe", "AbiRust", bool(variadic)), [("GTy", d_ty(a)) for a in list(args) + [ret]])
+    if h == "TDyn":
+        from vlib import sx
+        qs = {}
+        for _, ks, tr, args in t[1]:
+            q = ("Q", list(ks), ("Implemented", ("TraitRef", int(tr), [("GTy", ("BV", 1, 0))] + [d_garg(a) for a in args])))
+            qs[sx.to_sexp(q)] = q
+        return ("Dyn", ["KTy"], [qs[k] for k in sorted(qs)], d_lt(t[2]))
     if h == "TVar":
         return _bv("BV", t[1])
     if h == "TAdt":
@@ -357,11 +396,11 @@ def expected_dump(items):
     for i, it in enumerate(items):
         if it[0] == "IStruct":
             _, nm, ps, fl, fields, wcs = it
-            out.append(("Adt", i, Str(item_name(nm)), list(ps), "Struct", ("Flags",) + tuple(fl[1:4]), ("Repr", False, False, "None"), fl[4],
+            out.append(("Adt", i, Str(item_name(nm)), list(ps), "Struct", ("Flags",) + tuple(fl[1:4]), ("Repr", fl[5], fl[6], "None"), fl[4],
                         ["Invariant"] * len(ps), [[d_ty(t) for t in fields]], d_qwcs(wcs)))
         elif it[0] == "IEnum":
             _, nm, ps, fl, vs, wcs = it
-            out.append(("Adt", i, Str(item_name(nm)), list(ps), "Enum", ("Flags",) + tuple(fl[1:4]), ("Repr", False, False, "None"), fl[4],
+            out.append(("Adt", i, Str(item_name(nm)), list(ps), "Enum", ("Flags",) + tuple(fl[1:4]), ("Repr", fl[5], fl[6], "None"), fl[4],
                         ["Invariant"] * len(ps), [[d_ty(t) for t in v] for v in vs], d_qwcs(wcs)))
         elif it[0] == "ITrait":
             _, nm, ps, fl, wcs = it
